@@ -300,7 +300,7 @@ func TestC07(t *testing.T) {
 	var build func(cur []step)
 	build = func(cur []step) {
 		// terminal variants
-		scripts = append(scripts, append(append([]step{}, cur...), step{accept: -1}))         // success now
+		scripts = append(scripts, append(append([]step{}, cur...), step{accept: -1}))            // success now
 		scripts = append(scripts, append(append([]step{}, cur...), step{accept: 5, perm: true})) // permanent error
 		if len(cur) >= maxLen {
 			return
